@@ -174,7 +174,10 @@ PC = "repid/converter.py::PydanticConverter."
 
 def register_pydantic(db):
     # pydantic, assumed: a model is a set of field names, some of them required, the others with a default
-    db.shape("PydModel", {"fields": "set[str]", "required": "set[str]", "defaults": "map[str, opaque]"})
+    db.shape("PydModel", {"fields": "set[str]", "required": "set[str]", "defaults": "map[str, opaque]", "forbids_extra": "bool"})
+    db.shape("PydConfig", {"extra": "str"})
+    db.contract(fn="ConfigDict", assumed=True, params=["extra"], defaults={"extra": "'ignore'"}, returns="PydConfig",
+                ensures={"as_given": "result.extra == extra"}, note="pydantic.ConfigDict(extra=...): only the `extra` policy is modelled")
     db.shape("PydanticConverter", {"fn": "opaque", "args": "seq[str]", "kwargs": "seq[str]", "dependency_kwargs": "map[str, DependencyT]",
                                    "input_pydantic_model": "PydModel", "validate_output": "bool", "output_type": "opaque",
                                    "output_pydantic_model": "PydModel"})
@@ -186,8 +189,9 @@ def register_pydantic(db):
     db.ufun("is_required_marker", ["opaque"], "bool")
     db.contract(fn="Field", assumed=True, params=[], returns="opaque", ensures={"marker": "is_required_marker(result)"},
                 note="pydantic.Field() without a default: marks a field as required")
-    db.contract(fn="create_model", assumed=True, params=["name", "**fields"], returns="PydModel",
-                ensures={"exactly_the_given_fields": "forall_str(m, implies(not m.startswith('__'), (m in result.fields) == (m in fields)))",
+    db.contract(fn="create_model", assumed=True, params=["name", "__config__", "__base__", "**fields"],
+                defaults={"__config__": "None", "__base__": "None"}, returns="PydModel",
+                ensures={"extra_policy": "result.forbids_extra == (__config__ is not None and __config__.extra == 'forbid')","exactly_the_given_fields": "forall_str(m, implies(not m.startswith('__'), (m in result.fields) == (m in fields)))",
                          "no_other_field": "forall_str(m, implies(m in result.fields, m in fields))",
                          "required_are_fields": "forall_str(m, implies(m in result.required, m in result.fields))",
                          # (only for the call that passes the field specifications as one symbolic dict)
@@ -205,8 +209,9 @@ def register_pydantic(db):
                  # for payloads whose values already have the annotated types validation returns them unchanged
                  "payload_entry_or_default": f"forall_str(m, implies(m in self.fields, result[m] == ite(m in {L}, {L}[m], self.defaults[m])))"},
         raises=[Raises("ValidationError", mode="iff",
-                       when=f"not valid_json_object(data) or exists(m, 'str', m in self.required and m not in {L})")],
-        note="pydantic BaseModel.model_validate_json, default config: extra keys ignored, missing required field or invalid JSON -> "
+                       when=f"not valid_json_object(data) or exists(m, 'str', m in self.required and m not in {L})"
+                            f" or (self.forbids_extra and exists(m, 'str', m in {L} and m not in self.fields))")],
+        note="pydantic BaseModel.model_validate_json: extra keys ignored (or refused under extra='forbid'), missing required field or invalid JSON -> "
              "ValidationError; values of the annotated types are returned unchanged")
     db.axiom("empty_text_is_not_json", [], "not valid_json_object('')")
     db.axiom("empty_object_text", [], "valid_json_object('{}') and forall_str(m, m not in json_object('{}'))")
@@ -274,6 +279,8 @@ def finalize_pydantic(db):
             "model_fields_are_the_plain_parameters": f"forall_str(m, (m in {M}.fields) == (m not in self.dependency_kwargs"
                                                      f" and exists_int(j, 0 <= j and j < len({P}) and {P}[j].name == m)))",
             "every_positional_is_a_field": f"forall_int(j, implies(0 <= j and j < len(self.args), at(self.args, j) in {M}.fields))",
+            # entries that match no parameter are ignored, exactly as the basic converter ignores them
+            "extras_are_ignored_not_refused": f"not {M}.forbids_extra",
             "positional_names_distinct": "forall_int(a, forall_int(b, implies(0 <= a and a < b and b < len(self.args), at(self.args, a) != at(self.args, b))))",
         },
         raises=[Raises("ValueError", mode="iff", when=BAD, modifies=MODS)],
@@ -288,7 +295,9 @@ def finalize_pydantic(db):
         options={"axioms": ["empty_text_is_not_json", "empty_object_text", "no_text_no_payload"]},
         returns="tuple[seq[opaque], map[str, opaque]]",
         # established by __init__: positional names are distinct fields of the input model
-        requires=[NODUP, f"forall_int(j, implies(0 <= j and j < len(self.args), at(self.args, j) in {M}.fields))"],
+        # established by __init__: positional names are distinct fields of the input model, which ignores unknown entries
+        requires=[NODUP, f"forall_int(j, implies(0 <= j and j < len(self.args), at(self.args, j) in {M}.fields))",
+                  f"not {M}.forbids_extra"],
         ensures={
             "positional_by_name_or_default": f"len(result[0]) == len(self.args) and forall_int(j, implies(0 <= j and j < len(self.args),"
                                              f" at(result[0], j) == {V('at(self.args, j)')}))",
